@@ -2,6 +2,7 @@ package checks
 
 import (
 	"fmt"
+	"strings"
 	"testing"
 
 	"github.com/veraison/psatoken"
@@ -219,6 +220,33 @@ func TestC01_Sweep(t *testing.T) {
 				for i, v := range multiByteDigitVariants(base) {
 					try(v, fmt.Sprintf("samebytelen-nonascii-digits/%d", i))
 				}
+			}
+			// every layout of digits around dashes for total lengths
+			// 12..21 (a digits, '-', b digits; and two dashes), i.e. also
+			// the values that are several edits away from a valid
+			// reference but keep its length and alphabet
+			for total := 12; total <= 21; total++ {
+				for a := 0; a < total; a++ {
+					d := strings.Repeat("1234567890", 3)
+					s := d[:a] + "-" + d[a:total-1]
+					m := baseValid(p, variant)
+					m.CertRef = sp(s)
+					run(m, fmt.Sprintf("%scert/layout/%d/%d", pre, total, a))
+					for b := a + 1; b < total && (total == 19 || total == 20); b++ {
+						s2 := s[:b] + "-" + s[b+1:]
+						m := baseValid(p, variant)
+						m.CertRef = sp(s2)
+						run(m, fmt.Sprintf("%scert/layout2/%d/%d/%d", pre, total, a, b))
+					}
+				}
+			}
+			// adjacent transpositions of the valid +5 form
+			for i := 0; i+1 < 19; i++ {
+				b := []byte("1234567890123-12345")
+				b[i], b[i+1] = b[i+1], b[i]
+				m := baseValid(p, variant)
+				m.CertRef = sp(string(b))
+				run(m, fmt.Sprintf("%scert/transpose/%d", pre, i))
 			}
 			// VSI
 			for _, s := range []string{"", " ", "x", "\x00"} {
